@@ -211,6 +211,9 @@ PlayModel(song, loopEn, loopN) ==
 (* seek(seconds, granularity): rewind, loops off, ONE step of the full distance, then processEvents(isSeek) while the
    wait is within half a granule; a seek that reaches the end, or beyond the song length, rewinds.
    gh = half the granularity in whole microseconds (the waits are whole microseconds).  song.len = m_fullSongTimeLength. *)
+\* m_loop.temporaryBroken: the target lies at or behind the loop end point; without one (time -1) the loop ends with the song and
+\* no target is behind it (before that repair every seek in such a song was "behind": one pass too many followed)
+Behind(target, le) == le >= 0 /\ target >= le
 RECURSIVE DrainSeek(_, _, _, _, _)
 DrainSeek(S, song, rows, gh, fuel) ==
   IF S.atEnd \/ fuel = 0 \/ S.p.wait > gh THEN S
@@ -219,11 +222,11 @@ SeekModel(song, loopEn, loopN, target, gh) ==
   LET rows == Rows(song)
       base == Play0(song, rows, loopEn, loopN)
       le == LET lt == LoopTicks(song) IN LoopTimeUs(song, rows, lt.et, lt.invalid)
-      S0 == [base EXCEPT !.loopEn = FALSE, !.seek = TRUE, !.broken = (target >= le), !.p.wait = -target, !.p.abs = target]
+      S0 == [base EXCEPT !.loopEn = FALSE, !.seek = TRUE, !.broken = Behind(target, le), !.p.wait = -target, !.p.abs = target]
       d  == DrainSeek(S0, song, rows, gh, 400)
   IN IF target < 0 THEN [s |-> base, log |-> <<>>, tell |-> -1, rows |-> rows]            \* refused: nothing moves (tell -1 = unchanged)
      ELSE IF target > song.len THEN [s |-> base, log |-> <<>>, tell |-> 0, rows |-> rows]
-     ELSE IF target = 0 THEN [s |-> [base EXCEPT !.broken = (0 >= le)], log |-> <<>>, tell |-> 0, rows |-> rows]
+     ELSE IF target = 0 THEN [s |-> [base EXCEPT !.broken = Behind(0, le)], log |-> <<>>, tell |-> 0, rows |-> rows]
      ELSE IF d.atEnd THEN [s |-> base, log |-> d.log, tell |-> 0, rows |-> rows]
      ELSE [s |-> [d EXCEPT !.loopEn = loopEn, !.seek = FALSE, !.p.wait = Max(0, @), !.log = <<>>], log |-> d.log, tell |-> target, rows |-> rows]
 \* playback (exact stepping) continued from the state a seek left
